@@ -2579,6 +2579,20 @@ _archive_write_disk_close(struct archive *_a)
 			goto skip_fixup_entry;
 		else {
 			/*
+			 * O_NOFOLLOW below protects the last path component
+			 * only.  A directory earlier on the path may have been
+			 * replaced by a symlink after this fixup was recorded,
+			 * so with SECURE_SYMLINKS clean the name and walk it
+			 * again (removing nothing); skip the fixup if it would
+			 * lead through a symlink.
+			 */
+			if ((a->flags & ARCHIVE_EXTRACT_SECURE_SYMLINKS) != 0 &&
+			    (cleanup_pathname_fsobj(p->name, NULL, NULL,
+			    a->flags) != ARCHIVE_OK ||
+			    check_symlinks_fsobj(p->name, NULL, NULL,
+			    ARCHIVE_EXTRACT_SECURE_SYMLINKS, 1) != ARCHIVE_OK))
+				goto skip_fixup_entry;
+			/*
 			 * We need to verify if the type of the file
 			 * we are going to open matches the file type
 			 * of the fixup entry.
